@@ -366,6 +366,9 @@ def main(argv=None):
             small, sdetail = case, detail
             if getattr(mod, "SHRINK", True):
                 def still(c, _k=k):
+                    valid = getattr(mod, "valid", None)
+                    if valid is not None and not valid(c):
+                        return None     # shrinking must stay inside the property's input domain
                     try:
                         ctx2 = _replay_keys(mod, prop_id, tier, seed, c)
                     except Exception:
